@@ -223,7 +223,7 @@ func C13Const() {
 // symbolic names out of {Ta, Tb, Tc, Tm}; Tm is a message (recursion through
 // it terminates). The schema must be rejected exactly when some struct
 // contains itself through struct fields only.
-func C13Rec() {
+func C13Rec(variant int, first byte) {
 	var c [3][2]byte
 	for i := range c {
 		for j := range c[i] {
@@ -232,6 +232,8 @@ func C13Rec() {
 			c[i][j] = x
 		}
 	}
+	// (sharding: the first field type is fixed per harness function)
+	vstub.Assume(c[0][0] == first)
 	var adj [3][3]bool
 	for i := 0; i < 3; i++ {
 		for j := 0; j < 3; j++ {
@@ -248,7 +250,6 @@ func C13Rec() {
 	bad := vstub.Or(adj[0][0], vstub.Or(adj[1][1], adj[2][2]))
 	// a [deprecated] attribute on a struct field changes nothing: struct fields
 	// are always encoded. variant 0: none, 1: every f field, 2: every field
-	variant := vstub.Choose(0, 2)
 	dep := func(on bool) string {
 		if on {
 			return "[deprecated(\"d\")] "
